@@ -22,6 +22,8 @@ Section stmt_ind2.
   Hypothesis HFor : forall init c post body, OptP P init -> OptP P post -> Forall P body -> P (SFor init c post body).
   Hypothesis HBreak : P SBreak.
   Hypothesis HContinue : P SContinue.
+  Hypothesis HSwitch : forall init tag cls, OptP P init -> Forall P cls -> P (SSwitch init tag cls).
+  Hypothesis HCase : forall ce body ft, Forall P body -> P (SCase ce body ft).
 
   Fixpoint stmt_ind2 (s : stmt) : P s :=
     let list_ind2 := fix go (l : list stmt) : Forall P l :=
@@ -41,6 +43,8 @@ Section stmt_ind2.
     | SFor init c post body => HFor init c post body (opt_ind2 init) (opt_ind2 post) (list_ind2 body)
     | SBreak => HBreak
     | SContinue => HContinue
+    | SSwitch init tag cls => HSwitch init tag cls (opt_ind2 init) (list_ind2 cls)
+    | SCase ce body ft => HCase ce body ft (list_ind2 body)
     end.
 End stmt_ind2.
 
@@ -303,6 +307,20 @@ Proof.
     destruct (loopvar_of _ c post); rewrite ?salloc_list_inner; reflexivity.
 Qed.
 
+Lemma salloc_switch init tag cls sc nx :
+  salloc (SSwitch init tag cls) sc nx =
+  let '(sc1, n1) := salloc_opt init sc nx in
+  let n2 := match tag with None => n1 | Some t => snd (aalloc t sc1 n1 None) end in
+  (sc, snd (salloc_list cls sc1 n2)).
+Proof.
+  simpl. unfold salloc_opt. destruct init as [s0|]; [destruct (salloc s0 sc nx) as [sc1 n1]|];
+    rewrite ?salloc_list_inner; reflexivity.
+Qed.
+
+Lemma salloc_case ce body ft sc nx :
+  salloc (SCase ce body ft) sc nx = (sc, snd (salloc_list body sc (calloc ce sc nx))).
+Proof. simpl. rewrite salloc_list_inner. reflexivity. Qed.
+
 Global Opaque salloc.
 
 (** Scope and counter invariants of a statement: the scope only changes by [x := e]. *)
@@ -343,7 +361,24 @@ Proof.
     ?salloc_block, ?salloc_break, ?salloc_continue; try reflexivity.
   - rewrite salloc_if. destruct (salloc_opt init sc nx). reflexivity.
   - rewrite salloc_for. destruct (salloc_opt init sc nx). destruct (loopvar_of init c post); reflexivity.
+  - rewrite salloc_switch. destruct (salloc_opt init sc nx). reflexivity.
 Qed.
+
+Lemma aalloc_list_mono l : forall sc nx, nx <= snd (aalloc_list l sc nx).
+Proof.
+  induction l as [|e l IH]; intros sc nx; simpl; [lia|].
+  pose proof (aalloc_mono e sc nx None). destruct (aalloc e sc nx None) as [o n1]. simpl in *.
+  specialize (IH sc n1). destruct (aalloc_list l sc n1). simpl in *. lia.
+Qed.
+
+Lemma balloc_list_mono l : forall sc nx, nx <= balloc_list l sc nx.
+Proof.
+  induction l as [|e l IH]; intros sc nx; simpl; [lia|].
+  pose proof (balloc_mono e sc nx). specialize (IH sc (snd (balloc e sc nx))). lia.
+Qed.
+
+Lemma calloc_mono ce sc nx : nx <= calloc ce sc nx.
+Proof. destruct ce; simpl; [lia | apply aalloc_list_mono | apply balloc_list_mono]. Qed.
 
 Lemma salloc_list_mono_aux l :
   Forall (fun s => forall sc nx, nx <= snd (salloc s sc nx)) l ->
@@ -382,6 +417,15 @@ Proof.
     destruct (loopvar_of init c post); simpl.
     + pose proof (salloc_list_mono_aux body H1 ((i, snd (salloc_opt post sc1 n2)) :: tl sc1) (S (snd (salloc_opt post sc1 n2)))). lia.
     + pose proof (salloc_list_mono_aux body H1 sc1 (snd (salloc_opt post sc1 n2))). lia.
+  - rewrite salloc_switch.
+    assert (A : nx <= snd (salloc_opt init sc nx)).
+    { destruct init; simpl in *; [apply H | lia]. }
+    destruct (salloc_opt init sc nx) as [sc1 n1]. simpl in *.
+    assert (B : n1 <= match tag with None => n1 | Some t => snd (aalloc t sc1 n1 None) end).
+    { destruct tag; [apply aalloc_mono | lia]. }
+    pose proof (salloc_list_mono_aux cls H0 sc1 (match tag with None => n1 | Some t => snd (aalloc t sc1 n1 None) end)). lia.
+  - rewrite salloc_case. simpl.
+    pose proof (calloc_mono ce sc nx). pose proof (salloc_list_mono_aux body H sc (calloc ce sc nx)). lia.
 Qed.
 
 Lemma salloc_list_mono l sc nx : nx <= snd (salloc_list l sc nx).
